@@ -49,12 +49,13 @@ def dt_cases(rng, tier, wid, nw):
         boundary = dt.day == 1 or dt.day >= 28 or (dt.month == 2 and dt.day >= 27) or dt.month in (1, 12) and dt.day in (1, 31)
         if boundary or (k % stride) == off:
             days.append(dt)
-    times = [None, (0, 0, 0), (12, 0, 0), (23, 59, 59), (9, 30, 15), (0, 0, 59), (19, 59, 0), (20, 0, 0), (10, 9, 8)]
+    times = [None, (0, 0, 0), (12, 0, 0), (23, 59, 59), (9, 30, 15), (0, 0, 59), (19, 59, 0), (20, 0, 0), (10, 9, 8), (23, 59, 60)]
+    # (the last one: a leap second, which RFC 5545 allows and the type holds)
     cases = []
     for i, dt in enumerate(days):
         if i % nw != wid:
             continue
-        for t in times[:6] if i % 7 else times:
+        for t in (times[:6] if i % 7 else times) + ([times[-1]] if (dt.month, dt.day) in ((6, 30), (12, 31)) else []):
             if t is None:
                 cases.append((dt.year, dt.month, dt.day, None, None, None, None))
             else:
